@@ -4,7 +4,9 @@ import (
 	"bytes"
 	"fmt"
 	"io"
+	"regexp"
 	"runtime/debug"
+	"strconv"
 	"strings"
 	"time"
 
@@ -211,5 +213,47 @@ func implInterp(src []byte) string {
 			e = hxe([]byte(err.Error()))
 		}
 		return fmt.Sprintf("accepted log=%s err=%s out=%s blocks=%s binding=%s", hx(lg), e, hx(out.Bytes()), fmtBlocks(res), fmtBinding(binding))
+	})
+}
+
+func regexpMust(s string) *regexp.Regexp { return regexp.MustCompile(s) }
+
+func unquoteGo(s string) (string, error) { return strconv.Unquote(s) }
+
+// implOutput: what Interpret prints (errors appended).
+func implOutput(src []byte) string {
+	return guarded(opTimeout, func() string {
+		var out bytes.Buffer
+		_, _, err := bcl.Interpret(src, bcl.OptOutput(&out), bcl.OptLogger(io.Discard))
+		if err != nil {
+			return out.String() + "ERR " + err.Error()
+		}
+		return out.String()
+	})
+}
+
+// implInterpNoPos: code and constants (no positions), diagnostics modulo positions,
+// and the run outcome modulo positions.
+func implInterpNoPos(src []byte) string {
+	return guarded(opTimeout, func() string {
+		var out, log bytes.Buffer
+		prog, err := bcl.Parse(src, "input", bcl.OptOutput(&out), bcl.OptLogger(&log))
+		lg := rePos.ReplaceAll(canonLog(log.Bytes()), []byte("line _"))
+		if err != nil {
+			return "rejected log=" + hx(lg)
+		}
+		_, code, consts, _, _ := bcl.VerifProgParts(prog)
+		cs := make([]string, len(consts))
+		for i, c := range consts {
+			cs[i] = fmtVal(c)
+		}
+		res, binding, err := bcl.Execute(prog)
+		e := "-"
+		if err != nil {
+			e = hxe(rePos.ReplaceAll([]byte(err.Error()), []byte("line _")))
+		}
+		lg = rePos.ReplaceAll(canonLog(log.Bytes()), []byte("line _"))
+		return fmt.Sprintf("accepted code=%s consts=%s log=%s err=%s out=%s blocks=%s binding=%s",
+			hx(code), strings.Join(cs, ","), hx(lg), e, hx(out.Bytes()), fmtBlocks(res), fmtBinding(binding))
 	})
 }
